@@ -105,11 +105,11 @@ pub fn compile_probe(dir: &str, source: &str) -> Result<Vec<(usize, String, Stri
     std::fs::write(format!("{dir}/.cargo/config.toml"), "[net]\noffline = true\n").map_err(|e| e.to_string())?;
     std::fs::write(
         format!("{dir}/Cargo.toml"),
-        "[package]\nname = \"verif-probe\"\nversion = \"0.0.0\"\nedition = \"2021\"\npublish = false\n\n[workspace]\n\n[lib]\npath = \"src/lib.rs\"\n\n[dependencies]\nec-core = { path = \"/repo/packages/ec-core\" }\npush = { path = \"/repo/packages/push\" }\nordered-float = \"5.0.0\"\n",
+        format!("[package]\nname = \"verif-probe\"\nversion = \"0.0.0\"\nedition = \"2021\"\npublish = false\n\n[workspace]\n\n[lib]\npath = \"src/lib.rs\"\n\n[dependencies]\nec-core = {{ path = \"{repo}/packages/ec-core\" }}\npush = {{ path = \"{repo}/packages/push\" }}\nordered-float = \"5.0.0\"\n", repo = crate::repo_dir()),
     )
     .map_err(|e| e.to_string())?;
     if !Path::new(&format!("{dir}/Cargo.lock")).exists() {
-        std::fs::copy("/repo/Cargo.lock", format!("{dir}/Cargo.lock")).map_err(|e| e.to_string())?;
+        std::fs::copy(format!("{}/Cargo.lock", crate::repo_dir()), format!("{dir}/Cargo.lock")).map_err(|e| e.to_string())?;
     }
     std::fs::write(format!("{dir}/src/lib.rs"), source).map_err(|e| e.to_string())?;
     let target = format!("{}/harness/target/probe", verif_dir());
